@@ -15,6 +15,7 @@ type c19Prog struct {
 	Markers   []int          // lines holding a marker statement
 	Funcs     []string       // names of the declared functions
 	FuncFirst map[string]int // function name -> line of its first statement (always a marker)
+	Globals   int            // package-level variables with an initialiser
 	Wild      bool           // generated with the shapes on which the tracker is known to lose the node
 	Tag       string         // "gen" or the name of a fixed witness
 }
@@ -90,11 +91,11 @@ func (g *c19gen) block(ind, depth, lo, hi int, first bool, inFunc bool) {
 func (g *c19gen) stmt(ind, depth int, inFunc bool) {
 	k := g.r.intn(100)
 	switch {
-	case k < 30:
+	case k < 24:
 		g.marker(ind)
-	case k < 45:
+	case k < 36:
 		g.assign(ind)
-	case k < 60 && depth > 0: // if / if-else
+	case k < 54 && depth > 0: // if / if-else
 		g.emit(ind, "if "+g.cond()+" {")
 		g.block(ind+1, depth-1, 1, 3, true, inFunc)
 		if g.r.chance(50) {
@@ -108,7 +109,7 @@ func (g *c19gen) stmt(ind, depth int, inFunc bool) {
 			}
 		}
 		g.emit(ind, "}")
-	case k < 70 && depth > 0 && (g.wild || g.loops == 0): // three-clause loop
+	case k < 68 && depth > 0 && (g.wild || g.loops == 0): // three-clause loop
 		g.loops++
 		v := g.fresh("i")
 		g.emit(ind, fmt.Sprintf("for %s := 0; %s < %d; %s++ {", v, v, 1+g.r.intn(3), v))
@@ -221,6 +222,21 @@ func c19Generate(r *rng, wild bool) c19Prog {
 		g.callee = append(g.callee, name)
 		p.Funcs = append(p.Funcs, name)
 	}
+	// package-level variables initialised by calls: their initialisers run on the root frame
+	var globals []string
+	if r.chance(35) {
+		ng := 1 // the main stream has at most one: see the finding C19-linebp-globals
+		if wild {
+			ng = 1 + r.intn(3)
+		}
+		p.Globals = ng
+		for i, n := 0, ng; i < n; i++ {
+			gv := fmt.Sprintf("g%d", i+1)
+			g.emit(0, "")
+			g.emit(0, fmt.Sprintf("var %s = %s(%d)", gv, r.pick(g.callee), r.intn(4)))
+			globals = append(globals, gv)
+		}
+	}
 	g.emit(0, "")
 	g.loops, g.defers = 0, 0
 	g.emit(0, "func main() {")
@@ -228,6 +244,9 @@ func c19Generate(r *rng, wild bool) c19Prog {
 	p.Funcs = append(p.Funcs, "main")
 	g.marker(1)
 	g.emit(1, fmt.Sprintf("x := %d", r.intn(4)))
+	for _, gv := range globals {
+		g.emit(1, fmt.Sprintf("x = x + %s%%3", gv))
+	}
 	g.block(1, 2, 3, 7, false, false)
 	// every function is called at least once
 	for _, f := range g.callee {
@@ -259,7 +278,12 @@ func c19Witnesses() []c19Prog {
 		return c19Prog{Src: src, NLines: strings.Count(src, "\n"), Markers: markers, Funcs: []string{"main"},
 			FuncFirst: map[string]int{"main": 4}, Wild: true, Tag: tag}
 	}
+	two := mk("two-globals", "package main\n\nfunc f1(a int) int {\n\tprintln(\"L4\")\n\treturn a + 1\n}\n\nvar g1 = f1(2)\n\nvar g2 = f1(0)\n\nfunc main() {\n\tprintln(\"L13\")\n\tprintln(\"L14\", g1+g2)\n}\n", 4, 13, 14)
+	two.Globals = 2
+	two.Funcs = []string{"f1", "main"}
+	two.FuncFirst = map[string]int{"f1": 4, "main": 13}
 	return []c19Prog{
+		two,
 		mk("if-else-same-generator", "package main\n\nfunc main() {\n\tprintln(\"L4\")\n\tc := false\n\tif c {\n\t\tprintln(\"L7\")\n\t} else {\n\t\tprintln(\"L9\")\n\t}\n\tprintln(\"L11\")\n}\n", 4, 7, 9, 11),
 		mk("loop-condition", "package main\n\nfunc main() {\n\tprintln(\"L4\")\n\ti := 0\n\tfor i < 3 {\n\t\tprintln(\"L7\")\n\t\ti++\n\t}\n\tprintln(\"L10\")\n}\n", 4, 7, 10),
 	}
